@@ -26,6 +26,13 @@ package client
 //@     (h.ackCh != nil ==> closed(h.ackCh) == h.closed) && (h.respCh != nil ==> closed(h.respCh) == h.closed)
 //@ }
 
+// thread-modular reading: whenever a handler's lock is taken, its flags and the closed state of its subscriber
+// channels are whatever other threads' critical sections left (flags and channels only go from open to closed),
+// constrained by the invariant; every critical section below must re-establish the invariant when it unlocks
+//@ lockinv monitorHandler.lock: wfMonitor closed(logCh)
+//@ lockinv streamHandler.lock: wfStream closed(eventCh)
+//@ lockinv queryHandler.lock: wfQueryH closed(ackCh), closed(respCh)
+
 // deregistering runs Cleanup of whichever handler is registered under the number (each Cleanup is proved below to
 // keep its own handler's invariant and to send nothing on a subscriber channel); its calls are logged
 //@ func (c *RPCClient) deregisterHandler(seq uint64)
